@@ -936,3 +936,11 @@ VARIANTS += [
     dict(prop="C03", name="verifier-right-prover-hashes-paired-with-own-twice", expect="EXCLUDE-domain|verifier:hash-order",
          edits=[dict(file=VPF, find="            .zip(other_hashes_prover_right.hashes.iter())", replace="            .zip(my_hashes_prover_right.hashes.iter())")]),
 ]
+
+_c17c = _json.load(open(_os.path.join(_os.path.dirname(_os.path.abspath(__file__)), "c17_carrier.json")))
+VARIANTS += [
+    dict(prop="C17", name="pending-length-in-a-local-lost-on-pending", expect="STATE|carried-state-stored-back",
+         edits=[dict(file=SIF, find=_c17c["find"], replace=_c17c["bad"])]),
+    dict(prop="C17", name="pending-length-in-a-local-stored-back", benign=True,
+         edits=[dict(file=SIF, find=_c17c["find"], replace=_c17c["good"])]),
+]
